@@ -1638,7 +1638,9 @@ def parse_equation_ellipses(eq, shapes, tuples=False):
     else:
         # no ellipsis, just check for output
         if rhs:
-            output = rhs[0]
+            # n.b. like numpy allow an ellipsis in the output only,
+            # it then stands for zero dimensions
+            output = rhs[0].replace("...", "")
         else:
             output = find_output_str(lhs)
 
